@@ -1795,9 +1795,9 @@ class LeCreditBasedChannel(utils.EventEmitter):
             # compute it
             if len(self.in_sdu) >= 2:
                 self.in_sdu_length = struct.unpack_from('<H', self.in_sdu, 0)[0]
-        if self.in_sdu_length == 0:
-            # We'll compute it later
-            return
+            else:
+                # We'll compute it later
+                return
         if len(self.in_sdu) < 2 + self.in_sdu_length:
             # Not complete yet
             logger.debug(
